@@ -12,7 +12,10 @@ from __future__ import annotations
 import itertools
 import time
 
-from .. import core, vt
+from .. import core
+
+core.bind_repo()  # the tree under test must be first on sys.path before vt imports reactivex
+from .. import vt  # noqa: E402
 
 PROPERTY = "C13"
 LEVEL = "exploration"
@@ -30,7 +33,7 @@ META = {
 RULE = (
     "all (operator, form, hot/cold pattern, tuple of source timelines): a source timeline = <=N on_next over a 2-value "
     "alphabet at slots 10,20,.. (optionally shifted by 5, hot ones also by -15 so that a prefix precedes subscription) "
-    "followed by completion, error or nothing; non-trivial = at least two sources delivered a notification to the operator "
+    "followed (one slot later, or in the same instant as the last element) by completion, error or nothing; non-trivial = at least two sources delivered a notification to the operator "
     "(one for single-source tuples) and the reference output is not empty; distinct = the whole case tuple"
 )
 BUDGET = {"quick": 150.0, "thorough": 1500.0}
@@ -302,13 +305,12 @@ def judge(op, form, sources):
         elif not same_out:
             problems.append(("termination", f"termination differs: expected one of {{{exp_txt}}} got {show_outs(outs)}"))
         else:
-            want = " | ".join(sorted({f"{m[1]}..{m[2]}" for m in same_out}))
+            want = " | ".join(sorted({" ".join(f"s{i}:[{a:g},{b:g}]" for i, (a, b) in enumerate(zip(m[1], m[2]))) for m in same_out}))
             # which side is wrong: closed too late (not released) or too early
             late = any(all(c is not None and c >= m[1][i] for i, c in enumerate(closes)) for m in same_out)
             cls = "not-released" if late else "released-early"
             problems.append((cls, f"source subscriptions closed at {closes}, expected within {want}; output {show_outs(outs)}"))
     delivered = sum(1 for (h, tl) in sources if visible(h, tl))
-    some = next(iter(exp))
     nontrivial = delivered >= min(2, n) and any(m[0] for m in exp)
     outcome = f"{show_outs(outs)} closes={closes}"
     return problems, nontrivial, outcome, len(exp)
@@ -330,28 +332,30 @@ def value_alphabets(seed):
     return [(f"a{i}", f"b{i}") for i in range(4)]
 
 
-def shapes(N, nvals, terminals=("C", "E", None)):
-    """Abstract timelines: (value indices, terminal)."""
+def shapes(N, nvals, sit, terminals=("C", "E", None)):
+    """Abstract timelines: (value indices, terminal, terminal in the same instant as the last element)."""
     for n in range(N + 1):
         for vals in itertools.product(range(nvals), repeat=n):
             for term in terminals:
-                yield (vals, term)
+                yield (vals, term, False)
+                if sit and n and term is not None:
+                    yield (vals, term, True)
 
 
 def concrete(shape, shift, alpha):
-    vals, term = shape
+    vals, term, sit = shape
     tl = [(10 * (k + 1) + shift, "N", alpha[v]) for k, v in enumerate(vals)]
     if term is not None:
-        tl.append((10 * (len(vals) + 1) + shift, term, "E" if term == "E" else None))
+        tl.append((10 * (len(vals) + (0 if sit else 1)) + shift, term, "E" if term == "E" else None))
     return tl
 
 
-def source_menu(N, nvals, pos, alphas, hot_modes):
+def source_menu(N, nvals, sit, pos, alphas, hot_modes):
     """All (hot, timeline) choices for the source at position `pos`."""
     out = []
     for hot in hot_modes:
         shifts = (0, 5, -15) if hot else (0, 5)
-        for sh in shapes(N, nvals):
+        for sh in shapes(N, nvals, sit):
             for shift in shifts:
                 if shift == -15 and not sh[0] and sh[1] is None:
                     continue  # identical to the unshifted silent source
@@ -360,26 +364,26 @@ def source_menu(N, nvals, pos, alphas, hot_modes):
 
 
 def plan(tier):
-    """[(ops, arities, N, nvals, hot patterns policy)]"""
+    """[(operators, arities, N elements, values, same-instant terminal variants, hot/cold pattern policy)]"""
     if tier == "quick":
         return [
-            (OPS, (1, 2), 2, 2, "all"),
-            (OPS, (3,), 1, 1, "uniform"),
+            (OPS, (1, 2), 2, 2, True, "all"),
+            (OPS, (3,), 1, 1, False, "uniform"),
         ]
     return [
-        (OPS, (1, 2), 2, 2, "all"),
-        (OPS, (3,), 2, 2, "uniform"),
-        (OPS, (3,), 1, 2, "all"),
-        (("zip", "combine_latest"), (4,), 1, 2, "uniform"),
+        (OPS, (1, 2), 2, 2, True, "all"),
+        (OPS, (3,), 2, 2, False, "uniform"),
+        (OPS, (3,), 1, 2, True, "all"),
+        (("zip", "combine_latest"), (4,), 1, 2, False, "uniform"),
     ]
 
 
 def all_cases(tier, seed):
     alphas = value_alphabets(seed)
-    for (ops_, arities, N, nvals, hotpol) in plan(tier):
+    for (ops_, arities, N, nvals, sit, hotpol) in plan(tier):
         for n in arities:
-            menus_cold = [source_menu(N, nvals, p, alphas, (False,)) for p in range(n)]
-            menus_hot = [source_menu(N, nvals, p, alphas, (True,)) for p in range(n)]
+            menus_cold = [source_menu(N, nvals, sit, p, alphas, (False,)) for p in range(n)]
+            menus_hot = [source_menu(N, nvals, sit, p, alphas, (True,)) for p in range(n)]
             if hotpol == "all":
                 patterns = list(itertools.product((False, True), repeat=n))
             else:
@@ -401,7 +405,8 @@ def shard(part: core.Part, shard_i, nshards, tier, seed, deadline):
             return
         problems, nontrivial, outcome, members = judge(op, form, sources)
         key = (op, form, repr(sources))
-        part.case(key, nontrivial, outcome=(op, outcome), sample={"op": op, "form": form, "sources": [list(s) for s in sources], "observed": outcome})
+        smp = {"op": op, "form": form, "sources": describe(sources), "observed": outcome, "admissible_observations": members} if (nontrivial and members > 1) else None
+        part.case(key, nontrivial, outcome=(op, outcome), sample=smp)
         part.count("op:" + op)
         part.count(f"arity:{len(sources)}")
         if members > 1:
@@ -421,8 +426,9 @@ def describe(sources):
 def run(ctx: core.Ctx):
     ctx.bounds = {
         "plan": [
-            {"operators": list(o), "arities": list(a), "max_elements_per_source": N, "values_per_source": nv, "hot_cold_patterns": hp}
-            for (o, a, N, nv, hp) in plan(ctx.tier)
+            {"operators": list(o), "arities": list(a), "max_elements_per_source": N, "values_per_source": nv,
+             "terminal_in_same_instant_as_last_element": sit, "hot_cold_patterns": hp}
+            for (o, a, N, nv, sit, hp) in plan(ctx.tier)
         ],
         "shifts": "cold 0,+5; hot 0,+5,-15",
         "forms": list(FORMS),
